@@ -471,3 +471,104 @@ Proof.
 Qed.
 
 End Generic.
+
+(* ---------- fresh pyswarms fitness ---------- *)
+Section GenericTop.
+Context {V : Type} (N : num V).
+
+Lemma pyswarms_run I (m : @model V) (L : @lik V) (lp : @lprior V) fl r h (ops : list (@op V)) :
+  Forall (fun v => length v = prior_count m) (trace true h ops) ->
+  view (fst (run N I m L lp fl r true (fresh h) ops)) =
+    (if i_pshist I then spec_history_ps N m L lp r fl (trace true h ops) else []) /\
+  snd (run N I m L lp fl r true (fresh h) ops) = spec_outputs_ps N m L lp r h ops.
+Proof.
+  intro HF. destruct (run_ps N I m L lp fl r ops (fresh h) HF) as [Hv Ho]; [intros b ll []|].
+  split; [exact Hv | exact Ho].
+Qed.
+
+(* all in one: what a successful / unsuccessful plain call returns *)
+Lemma call_value_spec (m : @model V) (L : @lik V) (lp : @lprior V) fl r vec :
+  length vec = prior_count m ->
+  (forall ll b, evaluate N m L vec = EvOk ll b ->
+     call_value N m L lp fl r vec =
+     Returned (match fl_like fl, fl_chi2 fl with
+               | true, false => f_like N ll
+               | false, false => f_post N ll (pysum N (lp_list lp 0 vec))
+               | true, true => f_chi2 N (f_like N ll)
+               | false, true => f_chi2 N (f_post N ll (pysum N (lp_list lp 0 vec)))
+               end)) /\
+  (evaluate N m L vec = EvResample -> call_value N m L lp fl r vec = Returned r) /\
+  ((exists ll b, evaluate N m L vec = EvOk ll b) \/ evaluate N m L vec = EvResample).
+Proof.
+  intro Hl. split; [|split].
+  - intros ll b E. rewrite (call_value_success N m L lp fl r vec ll b E), merit_cases. reflexivity.
+  - apply call_value_resample.
+  - destruct (evaluate_total N m L vec) as [H|[H|[_ H]]]; auto. contradiction.
+Qed.
+
+Lemma resample_cases (m : @model V) (L : @lik V) (lp : @lprior V) fl r vec :
+  length vec = prior_count m ->
+  (limits_ok N (m_limits m) vec = false \/
+   forallb (assert_ok N vec) (m_asserts m) = false \/
+   L (instance N m vec) = LRaise \/
+   (exists ll b, L (instance N m vec) = LRet ll b /\ n_isnan N ll = true)) ->
+  call_value N m L lp fl r vec = Returned r.
+Proof.
+  intros Hl H. apply call_value_resample. apply evaluate_resample_iff. auto.
+Qed.
+End GenericTop.
+
+(* ---------- exact rationals: what the generated formulas mean ---------- *)
+Definition qsum (l : list Q) : Q := fold_right Qplus 0 l.
+
+Lemma fold_left_Qplus (l : list Q) (a : Q) : fold_left Qplus l a == a + qsum l.
+Proof.
+  revert a; induction l as [|x t IH]; intro a; simpl.
+  - ring.
+  - rewrite IH. ring.
+Qed.
+
+Lemma pysum_Q (l : list Q) : pysum numQ l == qsum l.
+Proof. unfold pysum; simpl. rewrite fold_left_Qplus. ring. Qed.
+
+Lemma f_like_Q ll : f_like numQ ll == ll.
+Proof. simpl. unfold fit_likelihood_Q. reflexivity. Qed.
+Lemma f_post_Q ll s : f_post numQ ll s == ll + s.
+Proof. simpl. unfold fit_posterior_Q. reflexivity. Qed.
+Lemma f_chi2_Q f : f_chi2 numQ f == (-2 # 1) * f.
+Proof. simpl. unfold fit_chi2_Q. ring. Qed.
+
+Lemma merit_Q fl (lp : @lprior Q) vec ll :
+  merit numQ fl lp vec ll ==
+  (if fl_chi2 fl then -2 # 1 else 1) * (ll + (if fl_like fl then 0 else qsum (lp_list lp 0 vec))).
+Proof.
+  rewrite merit_cases. destruct (fl_like fl), (fl_chi2 fl).
+  - rewrite f_chi2_Q, f_like_Q. ring.
+  - rewrite f_like_Q. ring.
+  - rewrite f_chi2_Q, f_post_Q, pysum_Q. ring.
+  - rewrite f_post_Q, pysum_Q. ring.
+Qed.
+
+Lemma ps_merit_Q (lp : @lprior Q) vec ll :
+  ps_merit numQ lp vec ll == (-2 # 1) * (ll + qsum (lp_list lp 0 vec)).
+Proof.
+  unfold ps_merit. simpl. unfold ps_fom_Q, ps_posterior_Q.
+  change (fold_left Qplus (lp_list lp 0 vec) 0) with (pysum numQ (lp_list lp 0 vec)).
+  rewrite pysum_Q. ring.
+Qed.
+
+Lemma ps_res_Q r : p_res numQ r == (-2 # 1) * r.
+Proof. simpl. unfold ps_resample_Q. ring. Qed.
+
+(* the sum of the log-prior terms, entry by entry: prior k with entry k *)
+Lemma qsum_lp_list (lp : @lprior Q) j vec :
+  qsum (lp_list lp j vec) == qsum (map (fun k => lp (j + k)%nat (nth k vec 0)) (seq 0 (length vec))).
+Proof.
+  revert j; induction vec as [|v t IH]; intro j; simpl; [reflexivity|].
+  rewrite IH. rewrite <- seq_shift, map_map. rewrite Nat.add_0_r.
+  apply Qplus_comp; [reflexivity|].
+  assert (E : map (fun k => lp (S j + k)%nat (nth k t 0)) (seq 0 (length t)) =
+              map (fun x => lp (j + S x)%nat (nth x t 0)) (seq 0 (length t))).
+  { apply map_ext. intro k. f_equal. lia. }
+  rewrite E. reflexivity.
+Qed.
